@@ -552,7 +552,8 @@ pub fn run(run: &mut Run) {
     ];
     if run.tier == Tier::Thorough {
         hist.push(History { start_id: 500_000, start_serial: (1u64 << 32) + 1, count: 6 * MAX_ID, creations: vec![(MAX_ID, 2), (4 * MAX_ID, 3)] });
-        hist.push(History { start_id: 1, start_serial: u64::MAX - 1, count: 3 * MAX_ID, creations: vec![] });
+        // (the 64-bit serial counter itself cannot run over: that would take 2^84 allocations; histories stay below it)
+        hist.push(History { start_id: 1, start_serial: (1u64 << 40) - 1, count: 3 * MAX_ID, creations: vec![] });
     }
     run.enumerate("long-histories", hist.into_iter(), history_oracle);
     // (d)
